@@ -34,3 +34,4 @@ CFG = dict(
 )
 
 CFG["rule"] += " In every C19M mux two more muxes are created between constructing the mux under test and registering on it (one with a decoy configuration '* -> POST /c19/decoy', one with none)."
+CFG["rule"] += ' Shape 5: a config rule no method can take (unknown field): a method it selects must fail to register.'
